@@ -437,7 +437,7 @@ def gen_cases(ctx):
     rng = ctx.rng
     cases = []
     ps = [0.0, 1.0, 0.5, 0.5, 0.3, 0.8, 0.1]
-    for _ in range(ctx.pick(33000, 300000)):
+    for _ in range(ctx.pick(28000, 300000)):
         cases.append((rng.randint(0, 5), rng.random() < 0.4, rng.random() < 0.7, rng.randint(1, 8),
                       rng.choice(ps), rng.randrange(2 ** 31), rng.random() < 0.7, rng.random() < 0.8,
                       rng.choice(BOUNDARY_STARTS) if rng.random() < 0.3 else None))
@@ -1331,6 +1331,144 @@ def run_sim_numbers(ctx, G, M):
     ctx.traces += len(plan)
 
 
+# ------------------------------------------------------------------------------------------------
+# part L: set-up histories on the real path with kill points BETWEEN the steps (round 5)
+# ------------------------------------------------------------------------------------------------
+def c16_variants(cfg):
+    """configurations that differ from cfg in ONE leaf a C16 clause depends on"""
+    import copy
+    from datetime import date as _d, timedelta as _td
+    out = []
+    v = copy.deepcopy(cfg); v["pre_sim_emissions"] = not cfg["pre_sim_emissions"]; out.append(("pre-sim", v))
+    v = copy.deepcopy(cfg)
+    sd, ed = _d(*cfg["start"]) + _td(days=400), _d(*cfg["end"]) + _td(days=400)
+    v["start"], v["end"] = [sd.year, sd.month, sd.day], [ed.year, ed.month, ed.day]; out.append(("period", v))
+    v = copy.deepcopy(cfg); v["rep"]["duration"] = max(2, cfg["rep"]["duration"] // 4); v["nonrep"]["duration"] = max(2, cfg["nonrep"]["duration"] // 3)
+    out.append(("duration", v))
+    v = copy.deepcopy(cfg); v["rep"]["multi"] = not cfg["rep"]["multi"]; v["nonrep"]["multi"] = not cfg["nonrep"]["multi"]; out.append(("multi", v))
+    v = copy.deepcopy(cfg); v["rates"] = [r * 3 for r in cfg["rates"]]; out.append(("rates", v))
+    v = copy.deepcopy(cfg); v["n_sims"] = cfg["n_sims"] + 2; out.append(("n-sims", v))
+    return out
+
+
+def handed_oracle(ctx, G, cfg, handed, inp, seeds=None):
+    """every C16 clause on the scenarios the completed run HANDS to its simulations, against ITS OWN parameters"""
+    from datetime import date as _d
+    start, end = _d(*cfg["start"]), _d(*cfg["end"])
+    ndays = (end - start).days + 1
+    if sorted(handed) != list(range(cfg["n_sims"])):
+        ctx.violate("C16:handed-out:simulation-numbers", "the run does not hand out one scenario per requested simulation number",
+                    dict(inp, numbers=sorted(handed)))
+    fps = {}
+    for i, rows in handed.items():
+        fps[i] = tuple((p, tuple((d, r) for (d, _, r, _, _) in ems)) for p, ems in rows)
+        for (path, ems) in rows:
+            ctx.evaluations += 1
+            if not ems:
+                continue
+            reps = {e[3] for e in ems}
+            if len(reps) != 1:
+                ctx.violate("C16:handed-out:mixed-kinds", "one source holds repairable and non-repairable emissions", dict(inp, source=list(path)))
+                continue
+            par = cfg["rep"] if next(iter(reps)) else cfg["nonrep"]
+            if {e[4] for e in ems} != {int(par["duration"])}:
+                ctx.violate("C16:handed-out:duration", "a handed-out emission does not have the duration configured for this run",
+                            dict(inp, simulation=i, source=list(path), durations=sorted({e[4] for e in ems}), configured=par["duration"]))
+                continue
+            case = (int(par["duration"]), bool(par["multi"]), bool(cfg["pre_sim_emissions"]), ndays, par["epr"], None, True, True,
+                    start.isoformat())
+            out = {"pre": [], "sim": [], "dates": [e[0] for e in ems],
+                   "ems": [((_d.fromisoformat(e[0]) - start).days, int(e[1]), e[1], e[2]) for e in ems]}
+            before = len(ctx.violations)
+            gen_oracle(ctx, case, out, 100000.0, list(cfg["rates"]))
+            calendar_oracle(ctx, case, out)
+            for v in ctx.violations[before:]:
+                v["signature"] = v["signature"].replace("C16:", "C16:handed-out:", 1)
+                v["input"] = dict(inp, simulation=i, source=list(path), emissions=[[e[0], e[1], e[2]] for e in ems][:12],
+                                  period=[start.isoformat(), end.isoformat()], pre_sim_emissions=cfg["pre_sim_emissions"])
+            ctx.nontrivial.add(("handed", case[1], case[2], any(o[0] < 0 for o in out["ems"]), min(len(ems), 4)))
+    for a in fps:
+        for b in fps:
+            if a < b and fps[a] == fps[b] and any(e for _, e in handed[a]):
+                shared = seeds is not None and a < len(seeds) and b < len(seeds) and seeds[a] == seeds[b]
+                ctx.violate(SIG_SAME if shared else "C16:handed-out:identical-scenarios",
+                            "two simulation numbers are handed the identical scenario", dict(inp, simulations=[a, b], seeds=seeds))
+
+
+def setup_history_case(ctx, G, M, tmp, tag, runs, what):
+    """runs = [(cfg, kill)], the last one complete; judged: the folder protocol against the Lean model, and every
+    C16 clause on what the last run hands out"""
+    import pickle
+    root = os.path.join(tmp, f"sh_{tag}")
+    os.makedirs(root)
+    cfgs = []
+    for c, _ in runs:
+        if c not in cfgs:
+            cfgs.append(c)
+    # identity of a configuration for the folder model: what the generator hashes cover (the simulation count is
+    # NOT hashed: more simulations extend the folder) — the model gets (hash id, n) per run
+    def _hid(c):
+        return {k: v for k, v in c.items() if k not in ("n_sims", "wide_applied")}
+    hids = []
+    for c, _ in runs:
+        if _hid(c) not in hids:
+            hids.append(_hid(c))
+    inp = {"kind": "setup-history-case", "what_differs": what, "kills": [k for _, k in runs],
+           "config_of_run": [cfgs.index(c) for c, _ in runs], "configs": cfgs}
+    try:
+        res = G.run_setup_history(root, runs)
+    except (Exception, SystemExit) as e:   # noqa: BLE001
+        real_crash(ctx, "SimulationManager set-up steps", e, inp)
+        return
+    line = "ghist [" + ",".join(f"[{hids.index(_hid(c))},{c['n_sims']},{'x' if k == 'm' else k}]" for c, k in runs) + "]"
+    ml = M.run([line])[0]
+    il = " ".join(("-" if r["hash_file_exists"] is None else str(int(r["hash_file_exists"]))) + ":["
+                  + ",".join(map(str, r["generated"])) + "]:" + ("-" if r["marker"] is None else str(r["marker"])) for r in res)
+    ctx.evaluations += 1
+    if ml is not None and ml != il:
+        ctx.disagree("generator folder protocol (check / infrastructure / emissions, kill points)", inp, ml, il)
+    last_cfg, last = runs[-1][0], res[-1]
+    seeds = None
+    sp = os.path.join(root, "inputs", "generator", "emis_preseed.p")
+    if os.path.exists(sp):
+        seeds = [int(x) for x in pickle.load(open(sp, "rb"))]
+    if last["handed"] is None:
+        ctx.broke("set-up history: the completed run handed nothing out", str(inp)[:400])
+    else:
+        handed_oracle(ctx, G, last_cfg, last["handed"], inp, seeds)
+    ctx.count("setup-history:" + what)
+    for k in inp["kills"][:-1]:
+        ctx.count("kill-point:" + (k if not k.startswith("f") else "f<k>"))
+    ctx.nontrivial.add(("setup-history", what, tuple(inp["kills"]), tuple(inp["config_of_run"])))
+    ctx.traces += 1
+
+
+def run_setup_histories(ctx, G, M, tmp):
+    from harness import wholerun as W
+    rng = ctx.rng
+    n = 0
+    for rnd in range(ctx.pick(1, 4)):
+        A = W.make_config(rng, n_sims=rng.choice([2, 3]), ndays=120, n_sites=3, programs=[{"name": "P_none", "methods": []}],
+                          pre_sim_emissions=(rnd % 2 == 0))
+        A["rep"]["epr"], A["nonrep"]["epr"] = 0.03125, 0.015625       # enough emissions for the clauses to bite
+        nA = A["n_sims"]
+        kills_all = ["c", "i", "f0", "f1", f"f{nA}", f"f{nA + 2}", "m"]
+        for what, B in c16_variants(A):
+            kills = kills_all if not ctx.quick else ["i", rng.choice(["f1", "c", f"f{nA}", "m"])]
+            for k in kills:
+                setup_history_case(ctx, G, M, tmp, f"{n}", [(A, "x"), (B, k), (B, "x")], what); n += 1
+            for k in (kills_all if not ctx.quick else [rng.choice(["i", "f1"])]):
+                setup_history_case(ctx, G, M, tmp, f"{n}", [(A, "x"), (B, k), (A, "x")], what); n += 1
+        for k in (kills_all if not ctx.quick else ["i", "f1"]):
+            setup_history_case(ctx, G, M, tmp, f"{n}", [(A, k), (A, "x")], "same-configuration"); n += 1
+        vs = c16_variants(A)
+        for _ in range(ctx.pick(6, 40)):
+            pool = [A] + [v for _, v in rng.sample(vs, 2)]
+            runs = [(rng.choice(pool), rng.choice(["c", "i", "f0", "f1", "f2", "m", "x", "x"])) for _ in range(rng.randint(2, 5))]
+            runs.append((rng.choice(pool), "x"))
+            setup_history_case(ctx, G, M, tmp, f"{n}", runs, "random-history"); n += 1
+
+
 UNITDEFS = None
 SEEDINFO = None
 RATES = None
@@ -1371,6 +1509,15 @@ def setup(ctx):
                 changed.append("Generated/EmisSeed.lean")
     except (Exception, SystemExit) as e:   # noqa: BLE001
         ctx.broke("extractor: writing the generated Lean tables", f"{type(e).__name__}: {e}")
+    try:
+        mk = EX.read_marker_order()
+        if EX._write_if_changed(os.path.join(EX.LEAN_GEN, "GenMarker.lean"), EX.render_marker(mk)):
+            changed.append("Generated/GenMarker.lean")
+        ctx.extra["marker_order"] = {"removed_in_initialize_infrastructure": mk["in_infra"],
+                                     "removed_in_initialize_emissions": mk["in_emis"],
+                                     "written_after_files": mk["marker_after_files"]}
+    except (Exception, SystemExit) as e:   # noqa: BLE001
+        ctx.broke("extractor: marker order (initialize_infrastructure.py / initialize_emissions.py)", f"{type(e).__name__}: {e}")
     try:
         sn = EX.read_sim_number()
         if EX._write_if_changed(os.path.join(EX.LEAN_GEN, "SimNumber.lean"), EX.render_sim_number(sn)):
@@ -1466,6 +1613,7 @@ def run(ctx):
         part("non-SI table", lambda: check_nonsi_table(ctx, u))
         part("production rates", lambda: run_bad_production_rates(ctx, G))
         part("simulation numbers", lambda: run_sim_numbers(ctx, G, M))
+        part("set-up histories with kill points", lambda: run_setup_histories(ctx, G, M, tmp))
         part("whole run", lambda: run_wholerun(ctx, G, tmp))
     finally:
         shutil.rmtree(tmp, ignore_errors=True)
@@ -1577,6 +1725,15 @@ def replay(ctx, data):
             check_nonsi_table(ctx, u)
         elif kind == "bad-rate-case":
             run_bad_production_rates(ctx, G)
+        elif kind == "setup-history-case":
+            M = Model(ctx)
+            runs = [(inp["configs"][ci], k) for ci, k in zip(inp["config_of_run"], inp["kills"])]
+            res = G.run_setup_history(os.path.join(tmp, "shr"), runs) if os.makedirs(os.path.join(tmp, "shr")) is None else None
+            for (c, k), r in zip(runs, res):
+                print(f"run kill={k} pre_sim={c['pre_sim_emissions']} period={c['start']}..{c['end']} n_sims={c['n_sims']}: "
+                      f"hash_file_exists={r['hash_file_exists']} generated={r['generated']} marker={r['marker']}")
+            shutil.rmtree(os.path.join(tmp, "shr"))
+            setup_history_case(ctx, G, M, tmp, "r", runs, inp.get("what_differs", "?"))
         elif kind == "sim-numbers-case":
             nums = G.run_manager_numbers(inp["n"], inp["debug"])
             print("batches:", G.real_batches(inp["n"]), "numbers run:", nums)
